@@ -11,6 +11,8 @@ from mcx.common import Report, pmap
 LEVEL = "model_checking"
 W_TARGETS = [(0.5, 0.5), (1.0, 0.0), (0.0, 0.0), (-0.5, 0.75), (1.5, -0.5), (0.25, 0.0), (0.0, -1.0), (2.0, 1.0)]
 N_TARGETS = [(2.0, -1.0), (0.0, 3.0), (0.0, 0.0), (-1.5, 0.25)]
+W_TARGETS3 = [(0.5, 0.25, 0.25), (0.5, 0.5, 0.0), (0.0, 0.0, 1.0), (-0.5, 0.75, 0.0), (0.0, -0.5, 1.5), (0.25, 0.0, 0.0), (0.0, 0.0, 0.0)]
+N_TARGETS3 = [(2.0, -1.0, 0.0), (0.0, 0.0, 3.0), (1.0, 1.0, -1.5)]
 
 
 def sources(tier):
@@ -20,7 +22,8 @@ def sources(tier):
         return [("spot1+fut", ledger.FEES[0], q, deposit, 3), ("spot4+fut", ledger.FEES[1], q, deposit, 2),
                 ("fut+fut", ledger.FEES[4], q, deposit, 2), ("etf+es", ledger.FEES[5], q, deposit, 2),
                 ("halfmult", ledger.FEES[0], q, deposit, 3), ("spot+spot", ledger.FEES[3], q, deposit, 2),
-                ("spot1+fut", ledger.FEES[0], q, deposit, 2, 0.05), ("fut+fut", ledger.FEES[1], q, deposit, 2, 0.05)]
+                ("spot1+fut", ledger.FEES[0], q, deposit, 2, 0.05), ("fut+fut", ledger.FEES[1], q, deposit, 2, 0.05),
+                ("three", ledger.FEES[0], q, deposit, 2), ("three", ledger.FEES[1], q, deposit, 2)]
     out = []
     for u in ledger.UNIVERSES:
         for f in (ledger.FEES[0], ledger.FEES[1], ledger.FEES[4], ledger.FEES[5]):
@@ -35,7 +38,7 @@ def sources(tier):
 def _collect(src):
     universe, fee, quotes, deposit, depth = src[:5]
     rate = src[5] if len(src) > 5 else 0.0
-    ops = ledger.alphabet(with_rebalance=False, nquotes=len(quotes), marks=False)
+    ops = ledger.alphabet(with_rebalance=False, nquotes=len(quotes), marks=False, ncontracts=len(ledger.UNIVERSES[universe]))
     states, r = ledger.collect_states(universe, fee, depth, quotes, deposit, ops, rate=rate)
     return src, states, r["transitions"]
 
@@ -115,7 +118,8 @@ def _work(unit):
     reset_clock()
     out = {"transitions": 0, "violations": [], "nontrivial": 0, "outcomes": set()}
     for sb, ref, hist in chunk:
-        for measure, targets in (("weight", W_TARGETS), ("nr-contracts", N_TARGETS)):
+        for measure, targets in ((("weight", W_TARGETS), ("nr-contracts", N_TARGETS)) if len(cs) == 2 else
+                                 (("weight", W_TARGETS3), ("nr-contracts", N_TARGETS3))):
             for alloc in targets:
                 msgs, traded = check_rebalance(sb, ref, cs, fee, measure, alloc)
                 out["transitions"] += 1
